@@ -183,7 +183,7 @@ def check_output(g, ev, expr, model, den, timeout_ms):
         except Unsupported as e:
             out["violation"] = {"kind": "vocabulary", "why": str(e), "env": env}
             return out
-        verdict, m, dt = Decider(model.constraints, timeout_ms).differ(lhs, truth)
+        verdict, m, dt = Decider(model.constraints, timeout_ms, model.params).differ(lhs, truth)
         out["queries"] += 1
         out["secs"] += dt
         out[verdict] += 1
